@@ -150,6 +150,9 @@ def within(a, b, rtol):
         return bool(np.all(np.isfinite(a)) and np.all(np.isfinite(b)) and np.all(np.abs(a - b) <= rtol * np.abs(b)))
 
 
+SMALLEST_NORMAL = 2.2250738585072014e-308
+
+
 def within_ln(a, b, rtol):
     """added pools: all |a - b| <= rtol |b| max(1, |ln b|) - gamma = exp(ln gamma) carries the absolute rounding of ln(gamma), which grows with |ln(gamma)| (recorded: pyridine / cyclohexanol
     at infinite dilution, Dortmund, ln(gamma) = -368: both implementations give 6.8865279100e-161 and differ by 1.3e-12 relative = 3.5e-15 |ln gamma|). Same as within() for |ln b| <= 1."""
@@ -158,7 +161,10 @@ def within_ln(a, b, rtol):
     with np.errstate(all='ignore'):
         if not (np.all(np.isfinite(a)) and np.all(np.isfinite(b)) and np.all(b >= 0)): return False
         z = b == 0          # exp(ln gamma) underflowed in the reference (ln gamma < -745): zero expected
-        return bool(np.all(a[z] == 0) and np.all(np.abs(a[~z] - b[~z]) <= rtol * b[~z] * np.maximum(1.0, np.abs(np.log(b[~z])))))
+        sub = (~z) & (b < SMALLEST_NORMAL)      # gradual underflow (ln gamma in -745 .. -708): a subnormal carries only a few bits, both values must lie in that range and agree to the spacing of subnormals
+        nrm = ~(z | sub)
+        return bool(np.all(a[z] == 0) and np.all((a[sub] < SMALLEST_NORMAL) & (np.abs(a[sub] - b[sub]) <= 1e-6 * b[sub] + 1e-322))
+                    and np.all(np.abs(a[nrm] - b[nrm]) <= rtol * b[nrm] * np.maximum(1.0, np.abs(np.log(b[nrm])))))
 
 
 def relmax_ln(a, b):
@@ -691,14 +697,14 @@ def gd_range(case, cls, ids, cs, n, T, points, sel=None):
     if case.get('pool', 'base') == 'base': return
     for xq, gq in points:
         gq = np.asarray(gq, float)[:n]
-        odd = ~(np.isfinite(gq) & (gq > 0))
+        odd = ~(np.isfinite(gq) & (gq >= SMALLEST_NORMAL))      # zero, inf, nan, or a subnormal (gradual underflow: its logarithm carries only a few bits)
         if sel is not None:
             keep = np.zeros(n, bool); keep[[k for k in sel if k < n]] = True; odd &= keep          # members that enter the sum
         if not odd.any(): continue
         xs = float(xq[:n].sum())
         groups = [groups_of(cls, ids[k], cs[k]) for k in range(n)]
         r = ref_gammas(cls, groups, xq[:n] / xs, T) if (xs > 0 and all(groups)) else None
-        if r is None or all((not np.isfinite(r[k])) or r[k] <= 0 for k in np.where(odd)[0]): raise GdSkip()
+        if r is None or all((not np.isfinite(r[k])) or r[k] < SMALLEST_NORMAL for k in np.where(odd)[0]): raise GdSkip()
 
 
 def half_step_sum(G, x, d, eps, T, sel):
